@@ -167,8 +167,8 @@ def run():
     model_inputs = []
     for _ in range(12000 if thorough else 1200):
         spec = cc.gen_doc(ck.rng, MODEL_MODES, p_noalpha=0.04)
-        if ck.rng.random() < 0.25:  # 16 / 32-bit documents on the 8-bit lattice: the model's planes are bytes
-            spec = cc.to_depth(ck.rng, spec, ck.rng.choice([16, 32]), True)
+        if ck.rng.random() < 0.25:  # 16 / 32-bit documents (the model's planes carry their scale: 65535, or 1024 for the floats)
+            spec = cc.to_depth(ck.rng, spec, ck.rng.choice([16, 32]), ck.rng.random() < 0.2)
         col, al = cc.gen_backdrop(ck.rng, cc.NCH[spec["mode"]])
         W, H = spec["size"]
         vp = None
@@ -229,7 +229,7 @@ def run():
         "clipping runs have no PDF counterpart: the reference paints the clip layers over (base colour, base alpha) as a non-isolated backdrop and keeps the base's shape and alpha",
         "dissolve is excluded (the code maps it to normal); soft light uses the Photoshop formula accepted by C12",
         "a pixel layer without a transparency plane (finding F-C11-1, fixed by a5674d4) is given to the Coq model as an all-255 plane",
-        "16 / 32-bit documents: the oracle uses arbitrary plane values; the Coq model's planes are bytes, so the model stream uses 16 / 32-bit documents whose values lie on the 8-bit lattice (v*257, float32(v/255)) - the depth-dependent decoding of the implementation is exercised, the kernel is depth-independent",
+        "16 / 32-bit documents: arbitrary 16-bit values; 32-bit float planes hold n/1024 (exactly representable) or float32(n/255)",
         "not modelled / not generated: vector masks, strokes, layer effects, fills, adjustment layers, smart objects, type layers, ICC and the PIL conversion of composite_pil",
     ]
     return ck.finish()
